@@ -216,8 +216,8 @@ pub fn parse_root_adt<R: Read + Seek>(
     ) {
         if let Some(chunks) = discovery.get_chunks(ChunkId::MFBO) {
             if let Some(chunk_info) = chunks.first() {
-                reader.seek(SeekFrom::Start(chunk_info.offset + 8))?;
-                Some(MfboChunk::read_le(reader)?)
+                let mut cursor = read_chunk_payload(reader, chunk_info)?;
+                Some(MfboChunk::read_le(&mut cursor)?)
             } else {
                 None
             }
@@ -253,8 +253,8 @@ pub fn parse_root_adt<R: Read + Seek>(
     ) {
         if let Some(chunks) = discovery.get_chunks(ChunkId::MTXF) {
             if let Some(chunk_info) = chunks.first() {
-                reader.seek(SeekFrom::Start(chunk_info.offset + 8))?;
-                Some(MtxfChunk::read_le(reader)?)
+                let mut cursor = read_chunk_payload(reader, chunk_info)?;
+                Some(MtxfChunk::read_le(&mut cursor)?)
             } else {
                 None
             }
@@ -269,8 +269,8 @@ pub fn parse_root_adt<R: Read + Seek>(
     let texture_amplifier = if matches!(version, AdtVersion::Cataclysm | AdtVersion::MoP) {
         if let Some(chunks) = discovery.get_chunks(ChunkId::MAMP) {
             if let Some(chunk_info) = chunks.first() {
-                reader.seek(SeekFrom::Start(chunk_info.offset + 8))?;
-                Some(MampChunk::read_le(reader)?)
+                let mut cursor = read_chunk_payload(reader, chunk_info)?;
+                Some(MampChunk::read_le(&mut cursor)?)
             } else {
                 None
             }
@@ -285,8 +285,8 @@ pub fn parse_root_adt<R: Read + Seek>(
     let texture_params = if matches!(version, AdtVersion::MoP) {
         if let Some(chunks) = discovery.get_chunks(ChunkId::MTXP) {
             if let Some(chunk_info) = chunks.first() {
-                reader.seek(SeekFrom::Start(chunk_info.offset + 8))?;
-                Some(MtxpChunk::read_le(reader)?)
+                let mut cursor = read_chunk_payload(reader, chunk_info)?;
+                Some(MtxpChunk::read_le(&mut cursor)?)
             } else {
                 None
             }
@@ -301,8 +301,8 @@ pub fn parse_root_adt<R: Read + Seek>(
     let blend_mesh_headers = if matches!(version, AdtVersion::MoP) {
         if let Some(chunks) = discovery.get_chunks(ChunkId::MBMH) {
             if let Some(chunk_info) = chunks.first() {
-                reader.seek(SeekFrom::Start(chunk_info.offset + 8))?;
-                Some(MbmhChunk::read_le(reader)?)
+                let mut cursor = read_chunk_payload(reader, chunk_info)?;
+                Some(MbmhChunk::read_le(&mut cursor)?)
             } else {
                 None
             }
@@ -317,8 +317,8 @@ pub fn parse_root_adt<R: Read + Seek>(
     let blend_mesh_bounds = if matches!(version, AdtVersion::MoP) {
         if let Some(chunks) = discovery.get_chunks(ChunkId::MBBB) {
             if let Some(chunk_info) = chunks.first() {
-                reader.seek(SeekFrom::Start(chunk_info.offset + 8))?;
-                Some(MbbbChunk::read_le(reader)?)
+                let mut cursor = read_chunk_payload(reader, chunk_info)?;
+                Some(MbbbChunk::read_le(&mut cursor)?)
             } else {
                 None
             }
@@ -333,8 +333,8 @@ pub fn parse_root_adt<R: Read + Seek>(
     let blend_mesh_vertices = if matches!(version, AdtVersion::MoP) {
         if let Some(chunks) = discovery.get_chunks(ChunkId::MBNV) {
             if let Some(chunk_info) = chunks.first() {
-                reader.seek(SeekFrom::Start(chunk_info.offset + 8))?;
-                Some(MbnvChunk::read_le(reader)?)
+                let mut cursor = read_chunk_payload(reader, chunk_info)?;
+                Some(MbnvChunk::read_le(&mut cursor)?)
             } else {
                 None
             }
@@ -349,8 +349,8 @@ pub fn parse_root_adt<R: Read + Seek>(
     let blend_mesh_indices = if matches!(version, AdtVersion::MoP) {
         if let Some(chunks) = discovery.get_chunks(ChunkId::MBMI) {
             if let Some(chunk_info) = chunks.first() {
-                reader.seek(SeekFrom::Start(chunk_info.offset + 8))?;
-                Some(MbmiChunk::read_le(reader)?)
+                let mut cursor = read_chunk_payload(reader, chunk_info)?;
+                Some(MbmiChunk::read_le(&mut cursor)?)
             } else {
                 None
             }
@@ -385,6 +385,21 @@ pub fn parse_root_adt<R: Read + Seek>(
     };
 
     Ok((root, warnings))
+}
+
+/// Read exactly one chunk's payload into memory.
+///
+/// Chunks whose parsers read "until end of input" (MTXF, MTXP, MBMH, ...) must be
+/// handed a reader that ends with the chunk, otherwise they swallow every chunk
+/// that follows them in the file.
+fn read_chunk_payload<R: Read + Seek>(
+    reader: &mut R,
+    chunk_info: &crate::chunk_discovery::ChunkLocation,
+) -> Result<std::io::Cursor<Vec<u8>>> {
+    reader.seek(SeekFrom::Start(chunk_info.offset + 8))?;
+    let mut chunk_data = vec![0u8; chunk_info.size as usize];
+    reader.read_exact(&mut chunk_data)?;
+    Ok(std::io::Cursor::new(chunk_data))
 }
 
 /// Parse MH2O chunk with full 256-header structure.
